@@ -144,10 +144,20 @@ func (m c02) check(c *fw.Ctx, k *insCase) {
 		c.Violate(op+":feature-count", enc, fmt.Sprint(len(k.hostTab)+len(k.guestTab)), fmt.Sprint(len(res.Features())))
 		return
 	}
+	// a table may list the same feature twice (two identical lines of a flat
+	// file): each copy is present once.
+	copies := map[string]int{}
+	for _, f := range k.hostTab {
+		copies[gen.Label(f)]++
+	}
 	for _, f := range k.hostTab {
 		g := got[gen.Label(f)]
-		if len(g) != 1 {
-			c.Violate(op+":host-feature-not-once", enc, "1 x "+gen.Label(f), fmt.Sprint(len(g)))
+		if len(g) != copies[gen.Label(f)] {
+			c.Violate(op+":host-feature-not-once", enc, fmt.Sprintf("%d x %s", copies[gen.Label(f)], gen.Label(f)), fmt.Sprint(len(g)))
+			return
+		}
+		if len(g) == 2 && (g[1].Key != g[0].Key || !reflect.DeepEqual(g[1].Props, g[0].Props) || model.SafeString(g[1].Loc) != model.SafeString(g[0].Loc)) {
+			c.Violate(op+":copies-of-one-feature-differ", enc, model.SafeString(g[0].Loc), model.SafeString(g[1].Loc))
 			return
 		}
 		if g[0].Key != f.Key || !reflect.DeepEqual(g[0].Props, f.Props) {
@@ -194,7 +204,12 @@ func (m c02) check(c *fw.Ctx, k *insCase) {
 
 func mkHost(kind string, tab []gts.Feature, b []byte) gts.Sequence {
 	t := gen.SortedTable(gen.CloneTable(tab))
-	bb := append([]byte(nil), b...)
+	// residues with spare capacity behind them (a buffer that was appended
+	// to), the spare bytes set to a value no residue has.
+	bb := append(make([]byte, 0, len(b)+24), b...)
+	for i := len(b); i < cap(bb); i++ {
+		bb[:cap(bb)][i] = 0x7f
+	}
 	if kind == "genbank" {
 		return seqio.GenBank{Fields: seqio.GenBankFields{LocusName: "H", Molecule: gts.DNA, Topology: gts.Linear,
 			Date: seqio.Date{Year: 2020, Month: 1, Day: 1}}, Table: t, Origin: seqio.NewOrigin(bb)}
@@ -241,6 +256,11 @@ func (m c02) Run(c *fw.Ctx) {
 		}
 		o := gen.LocOpt{L: L, MaxParts: 5, MaxDepth: 3, Ambiguous: true, Overlap: r.Intn(3) == 0, Sites: true}
 		tab := gen.RandTable(r, r.Intn(9), o, "h", 10)
+		if len(tab) > 0 && r.Intn(6) == 0 {
+			// the same feature listed twice.
+			d := tab[r.Intn(len(tab))]
+			tab = append(tab, gen.CloneTable([]gts.Feature{d})[0])
+		}
 		var gtab []gts.Feature
 		if n > 0 && r.Intn(2) == 0 {
 			og := gen.LocOpt{L: n, MaxParts: 3, MaxDepth: 2, Ambiguous: true, Sites: false}
